@@ -6,5 +6,6 @@ CONSTANTS MaxMembers = 3
  OutBuf = 3
 INVARIANT RRejectsDamagedFirst
 INVARIANT RAcceptsFirstMember
+INVARIANT RReadBack
 PROPERTY Terminates
 CHECK_DEADLOCK FALSE
